@@ -25,6 +25,20 @@ class Adapter(EnvAdapter):
 
     # ---- configurations -------------------------------------------------------------------
     def configs(self, tier):
+        # time-limit sweep ("for every value passed", C11): one idle episode per value (all agents no-op), no probes
+        from harness.envs.base import T_SWEEP_QUICK_FEW, T_SWEEP_THOROUGH_FEW
+
+        ts = T_SWEEP_QUICK_FEW if tier == "quick" else T_SWEEP_THOROUGH_FEW
+        base = self._base_configs(tier)
+        tmpl = [c for c in base if c["id"] == "g6a2f1_t7_pen"][0]
+        sweep = []
+        for t in ts:
+            d = dict(tmpl, id=f"g6a2f1_t{t}_sweep", ctor=dict(tmpl["ctor"], time_limit=t), episodes=1, max_steps=t + 2,
+                     policies=["idle"], probe_every=0, props=["C03", "C11"])
+            sweep.append(d)
+        return base + sweep
+
+    def _base_configs(self, tier):
         pol = ["forage", "random", "crowd", "masked", "mostly_masked"]
 
         def c(id, g, na, nf, fov, t, episodes, max_steps, coop=True, pen=0.0, norm=True, grid=False,
@@ -246,6 +260,8 @@ class Adapter(EnvAdapter):
 
     # ---- policies -------------------------------------------------------------------------
     def choose(self, policy, env, state, obs, rng, i):
+        if policy == "idle":         # every agent plays the no-op: the episode can only end by its time limit
+            return np.zeros(np.asarray(obs.action_mask).shape[0], dtype=env.action_spec.dtype)
         if policy == "forage":
             return self._forage(env, state, obs, rng, eager=True)
         if policy == "crowd":
